@@ -30,6 +30,9 @@ def run(ck, an, tier):
     verified(ck, an)
     xy_init(ck, an)
     s6(ck, an)
+    from rules import C04
+    from sa.report import Renamed
+    C04.nxt(Renamed(ck, "C04:"), an)      # with window > 1 the first observation is assembled from the warm-up history: the batches handed out (history and per step) are the filed events, in time order, unaltered
 
 
 def s1(ck, an):
@@ -70,9 +73,20 @@ def s1(ck, an):
         ck.check(ct is not None and outer is not None and isinstance(outer.target, ast.Name) and ct == st.locals.get(outer.target.id), "ARGFLOW", "S1.quote-contract", subj, fa.loc(c), "the quote is for the column's contract",
                  f"quote contract is {ct.key() if ct is not None else '?'}", construct=stmt_text(c))
         if inner is not None:
-            it = fw.canon(inner.iter) if False else fa.sym.canon(inner.iter)
-            ck.check(it.endswith(".items()") and not any(isinstance(x, (ast.If, ast.Continue, ast.Break)) for x in ast.walk(inner)), "ARGFLOW", "S1.every-price-row", subj, fa.loc(inner), "every (time, price) of the column yields a quote",
-                     f"the row loop ranges over {it[:60]} or filters rows", construct=stmt_text(inner))
+            it = fa.sym.canon(inner.iter)
+            pp = fa.f.params[1]
+            cv = outer.target.id if outer is not None and isinstance(outer.target, ast.Name) else "None"
+            at_i = fa.cfg.entry.id
+            rows = []
+            for col in (f"{pp}.astype(float)[{{c}}]", f"{pp}[{{c}}].astype(float)"):
+                for drop in (".dropna(inplace=True)", ".dropna()"):
+                    rows.append(col + drop + ".items()")
+            # the column's rows, by value id: the given prices as floats, with ONLY the missing ones dropped (a zero or any other price is a quote)
+            cn = loop_item(fa, outer).key() if outer is not None and outer is not inner and isinstance(outer.target, ast.Name) else "?"
+            wants = [fa.sym.canon(ast.parse(t.format(c="__col__"), mode="eval").body, at_i).replace("__col__", cn) for t in rows]
+            ck.check(it in wants and not any(isinstance(x, (ast.If, ast.Continue, ast.Break)) for x in ast.walk(inner)), "ARGFLOW", "S1.every-price-row", subj, fa.loc(inner),
+                     "every (time, price) of the column yields a quote; only missing prices (NaN) are dropped",
+                     f"the row loop ranges over {it[:160]} or filters rows; specified {wants[0][:160]}", construct=stmt_text(inner))
         if outer is not None and outer is not inner:
             ck.check(fa.sym.canon(outer.iter).endswith(".columns") and not any(isinstance(x, (ast.Continue, ast.Break)) for x in ast.walk(outer)), "ARGFLOW", "S1.every-price-column", subj, fa.loc(outer), "every column yields quotes",
                      "the column loop skips columns", construct=stmt_text(outer))
